@@ -432,13 +432,13 @@ func c08Search(c *hx.Ctx, tagName string, names []string, sals []int64, full boo
 
 func init() {
 	hx.Register(&hx.Prop{
-		ID: "C08",
-		Workers: func(tier string) int { return 16 },
+		ID:          "C08",
+		Workers:     func(tier string) int { return 16 },
 		BudgetQuick: 150 * time.Second,
 		BudgetThor:  30 * time.Minute,
 		Kind:        "schedules",
 		Rule: "breadth-first search from the empty builder to the fix-point over concrete builder states (ordered list, name table, index map; two states merge only if all three are identical): every operation of the alphabet (4 full builds, 18 single-rule incrementals, two-rule incrementals over every name pair x salience pair, removals of every 1-2-subset of the names + an absent one, syntax-error and duplicate-name texts for both build kinds) applied in every reached state, " +
-			"every map-iteration order inside BuildRuleFromString / BuildRuleWithIncremental / RemoveRules enumerated as an environment choice; invariant in every state against the reference set: names/saliences/descriptions/bodies, unique names, non-increasing order, sort-model execution order and bodies, IsExist; failed builds leave the concrete state (incl. object identity) untouched. quick: 2 alphabets of 3 names x 2 saliences (incl. negative); thorough: 4 alphabets of 3 names x 3 saliences incl. negative and equal values",
+			"every map-iteration order inside BuildRuleFromString / BuildRuleWithIncremental / RemoveRules enumerated as an environment choice; invariant in every state against the reference set: names/saliences/descriptions/bodies, unique names, non-increasing order, sort-model execution order and bodies, IsExist; failed builds leave the concrete state (incl. object identity) untouched. quick: 2 alphabets of 3 names x 3 saliences (incl. negative); thorough: 4 such alphabets incl. equal values",
 		Assume: []string{"states are cloned with gx.DeepClone (compiled rules shared, they are immutable)", "names {a,b,c}, three saliences, two body tags per rule: the state space is finite and closed under the alphabet"},
 		Run: func(c *hx.Ctx) {
 			type alph struct {
@@ -450,7 +450,7 @@ func init() {
 			if c.Thorough() {
 				as = []alph{{[]string{"a", "b", "c"}, []int64{1, 2, 3}, true}, {[]string{"c", "a", "b"}, []int64{-2, 0, 7}, true}, {[]string{"b", "c", "a"}, []int64{0, 0, 5}, true}, {[]string{"a", "b", "c"}, []int64{3, 2, 1}, true}}
 			} else {
-				as = []alph{{[]string{"a", "b", "c"}, []int64{1, 2}, true}, {[]string{"c", "a", "b"}, []int64{5, -1}, true}}
+				as = []alph{{[]string{"a", "b", "c"}, []int64{1, 2, 3}, true}, {[]string{"c", "a", "b"}, []int64{-2, 0, 7}, true}}
 			}
 			for i, a := range as {
 				c08Search(c, fmt.Sprintf("a%d", i), a.names, a.sals, a.full, 0)
